@@ -912,7 +912,15 @@ func (o Obj) Doc() M {
 		if n.UID != "" {
 			md["uid"] = n.UID
 		}
-		return M{"apiVersion": "networking.k8s.io/v1", "kind": "NetworkPolicy", "metadata": md, "spec": spec}
+		// every fifth NetworkPolicy comes in the legacy group extensions/v1beta1 (same schema; old charts and exports)
+		api, nh := "networking.k8s.io/v1", 0
+		for _, c := range n.NS + "/" + n.Name {
+			nh = (nh*31 + int(c)) % 1000003
+		}
+		if nh%5 == 0 {
+			api = "extensions/v1beta1"
+		}
+		return M{"apiVersion": api, "kind": "NetworkPolicy", "metadata": md, "spec": spec}
 	case "anp":
 		a := o.Anp
 		spec := M{"priority": a.Prio, "subject": jSubject(a.Subject)}
